@@ -39,6 +39,27 @@ def spec_vlq_decode(s):
     return vals
 
 
+def spec_decode_r3(js):
+    """Independent decoder of a Revision-3 source map JSON -> {(target line, target column): (source file, source line, source column)}"""
+    out = {}
+    src = sline = scol = 0
+    for gline, group in enumerate(js["mappings"].split(";")):
+        gcol = 0
+        if not group:
+            continue
+        for seg in group.split(","):
+            f = spec_vlq_decode(seg)
+            gcol += f[0]
+            if len(f) >= 4:
+                src += f[1]
+                sline += f[2]
+                scol += f[3]
+                out[(gline, gcol)] = (js["sources"][src], sline, scol)
+            else:
+                out[(gline, gcol)] = (None, None, None)
+    return out
+
+
 def main():
     job = json.loads(sys.argv[1])
     sys.path.insert(0, job["repo"])
@@ -108,6 +129,10 @@ def main():
         b = {k: (v.source, v.source_line, v.source_column) for k, v in back.entries.items()}
         if a != b:
             out["problems"].append(f"seed {seed} v{version}: Revision-3 JSON does not decode back to the same associations")
+        c = spec_decode_r3(js)
+        if a != c:
+            k = next((k for k in a if a.get(k) != c.get(k)), None)
+            out["problems"].append(f"seed {seed} v{version}: Revision-3 JSON decoded by an independent decoder differs from the map at TEAL position {k}: {a.get(k)} vs {c.get(k)}")
         # annotated teal minus comments
         ann = sm.annotated_teal or ""
         stripped = []
@@ -148,6 +173,7 @@ def main():
         res = Compilation(mod.program(), pt.Mode.Application, version=8).compile(with_sourcemap=True)
         r3 = res.sourcemap.r3_sourcemap
         tl = res.teal.split("\n")
+        dec = spec_decode_r3(r3.to_json())
         for c in consts:
             idx = [i for i, l in enumerate(tl) if l.strip() == f"int {c}"]
             if len(idx) != 1:
@@ -156,6 +182,11 @@ def main():
             m = r3.entries[(idx[0], 0)]
             if os.path.realpath(m.source or "") != os.path.realpath(src) or m.source_line + 1 != line_of[c]:
                 out["problems"].append(f"constant written on {src}:{line_of[c]} is attributed to {m.source}:{(m.source_line or -1) + 1}")
+            d = dec.get((idx[0], 0))
+            if d is None or os.path.realpath(d[0] or "") != os.path.realpath(src) or d[1] + 1 != line_of[c]:
+                out["problems"].append(f"Revision-3 JSON attributes the constant written on {src}:{line_of[c]} to {d}")
+        if len(set(v[0] for v in dec.values())) < 2:
+            out["problems"].append("attribution scenario did not involve two source files (harness problem)")
         out["n"] += 1
     except Exception as ex:
         out["problems"].append(f"attribution scenario raised {type(ex).__name__}: {str(ex)[:200]}")
